@@ -13,6 +13,8 @@ def V(k):
     TRACE.append(k); return k * 11
 def P(k, *a):
     TRACE.append(k); print('p%s' % (k,))
+def PI(k):
+    TRACE.append(k); print('    i%s' % (k,)); print('      j%s' % (k,))
 def PX(k):
     TRACE.append(k); print('p%s' % (k,)); raise ValueError('e%s' % (k,))
 def D(k):
@@ -21,7 +23,7 @@ def D(k):
         TRACE.append(('d', k)); return f
     return deco
 '''
-TRACER_NAMES = ('T', 'V', 'P', 'D', 'PX', 'TRACE')
+TRACER_NAMES = ('T', 'V', 'P', 'D', 'PX', 'PI', 'TRACE')
 
 
 class NS(dict):
